@@ -10,7 +10,7 @@
    detector (both tiers are built with -race).  Data-race freedom itself is observed, not
    proved.  The *_refuted / *_necessary theorems show that the hypothesis cannot be dropped:
    the system in which a run writes one shared cell is exactly defect F-C09. *)
-From Eino Require Import Base.Util Model.Isolation Model.IsolationEngine Proofs.Isolation Proofs.IsolationDriver Proofs.IsolationEngine.
+From Eino Require Import Base.Util Model.Isolation Model.IsolationEngine Proofs.Isolation Proofs.IsolationDriver Proofs.IsolationEngine Proofs.IsolationEngineRec Proofs.IsolationSlice.
 
 (* ---- core: runs_non_interfering (system of the property: the record is immutable) ---- *)
 
@@ -102,6 +102,23 @@ Theorem engine_concurrent_result_is_solo_result :
                    erun c (S fuel) k = cobs k r' /\ erun c (S fuel) k <> None.
 Proof. exact engine_concurrent_equals_solo. Qed.
 Print Assumptions engine_concurrent_result_is_solo_result.
+
+(* "runs do not share channels, state, options": at EVERY moment of EVERY interleaving (complete
+   or not) the whole per-run state of call i — channels, local state, option map, step counter,
+   events — is the state the call reaches alone after as many supersteps, it went through the
+   same states, and the compiled record is the one before: also in the projection that
+   Corr/C09.v [rec_ok] compares with what the hook compose/verif_c09.go reads off the
+   implementation's *runner before the first and after the last call *)
+Theorem engine_runs_own_their_state :
+  forall (c : cobj) (ks : list call) sched c' rs',
+    grun (lift estep) sched (c, map (einit c) ks) = Some (c', rs') ->
+    c' = c /\ crec_proj c' = crec_proj c /\
+    forall i k, nth_error ks i = Some k ->
+      exists r', nth_error rs' i = Some r' /\
+                 iter estep c (count i sched) (einit c k) = Some r' /\
+                 gproj (lift estep) i sched (c, map (einit c) ks) = trace _ _ estep c (count i sched) (einit c k).
+Proof. exact Proofs.IsolationEngineRec.engine_runs_own_their_state. Qed.
+Print Assumptions engine_runs_own_their_state.
 
 (* exactly what Corr/C09.v [model_runs_engine] computes equals the solo predictions *)
 Theorem engine_check_compares_with_solo :
@@ -237,6 +254,43 @@ Theorem sticky_option_refuted :
 Proof. exact sticky_limit_inherited. Qed.
 Print Assumptions sticky_option_refuted.
 
+(* the successor list built by appending the run's branch selection ONTO the compiled edge slice,
+   whose backing array has spare capacity (seeded change C09-successors-appended-onto-shared-edge-slice):
+   run 0, whose branch selects 7, goes on with 9 — the selection of run 1 — under the schedule
+   0,1,0,1; alone it goes on with its own; and the record is not what it was *)
+Theorem spare_capacity_append_refuted :
+  exists sched g g',
+    grun astep_shared sched g = Some g' /\ all_final astep_shared g' = true /\
+    exists r r' s rs,
+      nth_error (snd g) 0 = Some r /\ nth_error (snd g') 0 = Some r' /\
+      solo_run astep_shared 2 (fst g) r = Some (s, rs) /\
+      a_used rs = Some (as_edges (fst g) ++ [a_sel r]) /\
+      a_used r' = Some (as_edges (fst g) ++ [9%N]) /\ a_sel r = 7%N /\ fst g' <> fst g.
+Proof. exact spare_append_foreign_selection. Qed.
+Print Assumptions spare_capacity_append_refuted.
+
+(* why the direct oracle "the compiled record, spare slice capacity included, is the same before
+   the first and after the last call" sees that shape without any collision: ONE step of ONE run
+   already changes the store, for every store and every selection other than what the slot holds *)
+Theorem spare_capacity_append_writes_record_alone :
+  forall s r, a_pc r = 0%N -> a_sel r <> as_spare s ->
+    exists s' r', astep_shared s r = Some (s', r') /\ s' <> s /\ as_edges s' = as_edges s.
+Proof. exact spare_append_one_run_writes_record. Qed.
+Print Assumptions spare_capacity_append_writes_record_alone.
+
+(* the code as it is (graph_run.go:680 append(nextNodeKeys, t.call.writeTo...): the list is the
+   run's own): every run goes on with the compiled edges and its OWN selection, in every
+   interleaving with any number of runs, and the record is never written *)
+Theorem copy_then_append_uses_own_selection :
+  forall sched g g',
+    grun astep_local sched g = Some g' ->
+    fst g' = fst g /\
+    forall i r, nth_error (snd g) i = Some r -> a_pc r = 0%N ->
+    forall r', nth_error (snd g') i = Some r' -> final astep_local (fst g') r' = true ->
+    a_used r' = Some (as_edges (fst g) ++ [a_sel r]).
+Proof. exact astep_local_uses_own_selection. Qed.
+Print Assumptions copy_then_append_uses_own_selection.
+
 (* the code as it is (graph_run.go:129-143: the limit of the call is a local of the run): every
    call runs under its own override or the compiled limit, in every interleaving, and the
    compiled limit is never changed *)
@@ -319,3 +373,14 @@ Example engine_driver_on_observed_interleaving :
       [Some "ok:V{<tSELF> n=2 lim=2 h=({p0=V{<tSELF> n=2 lim=2 h=in2>a[o=d0]>w>w>f>p0}})>j}"%string;
        Some "err:node:f"%string; Some "err:maxsteps"%string].
 Proof. exact ex_driver. Qed.
+
+(* engine_runs_own_their_state on an interleaving that is NOT complete: after five supersteps of
+   three calls no call has returned, each is where it is alone after its share of the steps *)
+Example engine_partial_interleaving :
+  exists rs', grun (lift estep) (firstn 5 ex_sched) (ex_obj, map (einit ex_obj) [ex_call1; ex_call2; ex_call3]) = Some (ex_obj, rs') /\
+    forallb (fun r => match rs_res r with None => true | Some _ => false end) rs' = true /\
+    map (fun i => count i (firstn 5 ex_sched)) [0; 1; 2]%nat <> [0; 0; 0]%nat /\
+    crec_proj ex_obj <> ""%string.
+Proof.
+  eexists. split; [vm_compute; reflexivity|]. split; [vm_compute; reflexivity|]. split; vm_compute; discriminate.
+Qed.
